@@ -1,21 +1,1779 @@
-// C08 smoke (to be replaced): memrchr / strlcpy through the igc_ prefixed shim
+// C08 — libc shim mem*/str* functions obey their ISO C / POSIX definitions.
+//
+// Every function of /repo/compat/libc/string/*.c is called through its igc_
+// prefixed object and compared with the host (glibc) function of the same name
+// (strlcpy/strlwr/strupr/strdup/strndup: definitional references). Return values
+// are normalised (sign / offset-or-NULL), destination blocks are compared byte
+// for byte including 32-byte canary zones, read-only operands live in
+// exactly-sized heap blocks whose end (or start, for backward scanners)
+// coincides with the last (first) byte the definition allows to be read.
+//
+// Structure: chk_<fn>(explicit arguments) = igris call + oracle;
+//            f_<fn>(Src, Case)            = generator + labels + non-trivial rule;
+//            str_enum                     = exhaustive small space through the same chk_*;
+//            all                          = multiplexer over the f_* (libFuzzer entry).
 #include "vpbt.h"
+#include <algorithm>
+#include <climits>
+#include <cstdlib>
+#include <functional>
+#include <memory>
 #include <string.h>
-extern "C" {
-void *igc_memrchr(const void *s, int c, size_t n);
-size_t igc_strlcpy(char *dst, const char *src, size_t size);
-char *igc_strndup(const char *s, size_t n);
-}
-using namespace vpbt;
-static void t_memrchr(Src &s, Case &c)
+#include <string>
+#include <strings.h>
+#include <vector>
+
+extern "C"
 {
-    size_t n = s.range(0, 16);
-    Exact b(n);
-    for (size_t i = 0; i < n; i++) b.p[i] = (uint8_t)s.range(0, 3);
-    int ch = (int)s.range(0, 3);
-    c.log("memrchr n=%zu c=%d buf=%s", n, ch, hexdump(b.p, n).c_str());
-    c.nontrivial = n > 1;
-    void *r = igc_memrchr(b.p, ch, n), *h = memrchr(b.p, ch, n);
-    VP_CHECK(r == h, "memrchr_result", "got %p want %p", r, h);
+    void *igc_memcpy(void *, const void *, size_t);
+    void *igc_memmove(void *, const void *, size_t);
+    void *igc_memset(void *, int, size_t);
+    int igc_memcmp(const void *, const void *, size_t);
+    void *igc_memchr(const void *, int, size_t);
+    void *igc_memrchr(const void *, int, size_t);
+    size_t igc_strlen(const char *);
+    size_t igc_strnlen(const char *, size_t);
+    char *igc_strcpy(char *, const char *);
+    char *igc_strncpy(char *, const char *, size_t);
+    size_t igc_strlcpy(char *, const char *, size_t);
+    char *igc_strcat(char *, const char *);
+    char *igc_strncat(char *, const char *, size_t);
+    int igc_strcmp(const char *, const char *);
+    int igc_strncmp(const char *, const char *, size_t);
+    int igc_strcasecmp(const char *, const char *);
+    int igc_strncasecmp(const char *, const char *, size_t);
+    char *igc_strchr(const char *, int);
+    char *igc_strrchr(const char *, int);
+    char *igc_strchrnul(const char *, int);
+    char *igc_strstr(const char *, const char *);
+    char *igc_strcasestr(const char *, const char *);
+    size_t igc_strspn(const char *, const char *);
+    size_t igc_strcspn(const char *, const char *);
+    char *igc_strpbrk(const char *, const char *);
+    char *igc_strtok(char *, const char *);
+    char *igc_strtok_r(char *, const char *, char **);
+    char *igc_strdup(const char *);
+    char *igc_strndup(const char *, size_t);
+    char *igc_strlwr(char *);
+    char *igc_strupr(char *);
 }
-VP_TARGET("memrchr", t_memrchr, "n>1");
+
+using namespace vpbt;
+
+namespace
+{
+
+typedef std::vector<uint8_t> Bytes;
+
+// ------------------------------------------------------------------ helpers
+const size_t CAN = 32; // canary bytes on each side of a destination region
+const long NOPTR = LONG_MIN;
+
+int sgn(int v) { return (v > 0) - (v < 0); }
+long poff(const void *r, const void *base)
+{
+    return r ? (long)((const char *)r - (const char *)base) : NOPTR;
+}
+std::string offs(long o) { return o == NOPTR ? std::string("NULL") : fmt("+%ld", o); }
+std::string hx(const Bytes &b, size_t max = 40)
+{
+    return hexdump(b.empty() ? (const void *)"" : (const void *)b.data(), b.size(), max);
+}
+[[noreturn]] void fail(const char *fn, const char *what, const std::string &msg)
+{
+    throw Fail{std::string(fn) + "_" + what, msg};
+}
+
+// Read-only operand in an exactly-sized heap block: `off` pad bytes, then the
+// data flush against the END of the block (at_start: data flush against the
+// START, pad behind it). A zero-sized allocation would have one addressable
+// byte under ASan, so an empty operand gets 16 pad bytes (same alignment).
+struct Tight
+{
+    Exact blk;
+    char *p;
+    size_t n;
+    static size_t eff(size_t n, size_t off) { return n + off == 0 ? 16 : off; }
+    Tight(const Bytes &d, size_t off, bool at_start = false)
+        : blk(d.size() + eff(d.size(), off)),
+          p(at_start ? blk.c() : blk.c() + eff(d.size(), off)), n(d.size())
+    {
+        memset(blk.p, 0xEE, blk.n);
+        if (n)
+            memcpy(p, d.data(), n);
+    }
+    bool same(const Bytes &d) const { return n == 0 || memcmp(p, d.data(), n) == 0; }
+};
+
+// Host-side copy of an operand: the data followed by 48 zero bytes, never
+// empty, so that no host reference call can touch indeterminate memory.
+struct Roomy
+{
+    std::vector<char> v;
+    explicit Roomy(const Bytes &d) : v(d.size() + 48, 0)
+    {
+        if (!d.empty())
+            memcpy(v.data(), d.data(), d.size());
+    }
+    char *p() { return v.data(); }
+};
+
+// Destination: [CAN + off canary][region][CAN canary], filled with a
+// position-dependent non-zero pattern. The twin (same layout) receives the
+// host / reference result; the two blocks must end up identical.
+struct Dst
+{
+    Exact blk;
+    size_t off, region;
+    uint8_t *d;
+    Dst(size_t region_, size_t off_)
+        : blk(CAN + off_ + region_ + CAN), off(off_), region(region_), d(blk.p + CAN + off_)
+    {
+        for (size_t i = 0; i < blk.n; i++)
+            blk.p[i] = (uint8_t)(0x80 | ((i * 29) & 0x7f));
+    }
+    char *c() { return (char *)d; }
+};
+
+void check_dst(const char *fn, const Dst &g, const Dst &w, const std::string &args)
+{
+    if (!memcmp(g.blk.p, w.blk.p, g.blk.n))
+        return;
+    size_t i = 0;
+    while (g.blk.p[i] == w.blk.p[i])
+        i++;
+    long rel = (long)i - (long)(CAN + g.off);
+    const char *zone = rel < 0 ? "left_canary" : (size_t)rel >= g.region ? "right_canary" : "dest";
+    fail(fn, zone,
+         fmt("first wrong byte at dest%+ld: got %02x want %02x; region=%zu got=%s want=%s; %s", rel,
+             g.blk.p[i], w.blk.p[i], g.region, hexdump(g.d, g.region, 48).c_str(),
+             hexdump(w.d, w.region, 48).c_str(), args.c_str()));
+}
+void check_src(const char *fn, const Tight &t, const Bytes &orig, const std::string &args)
+{
+    if (!t.same(orig))
+        fail(fn, "source_modified", "a read-only operand was written; " + args);
+}
+
+// ---------------------------------------------------------------- generators
+enum Style
+{
+    BIN = 0,  // {'a','b'}: repeated partial matches
+    TINY,     // {'a','b','A',0xFF}
+    SPECIAL,  // 0x00 0x7F 0x80 0xFF, both letter cases and their neighbours
+    LETTERS,  // letters of both cases, a few others
+    FULL      // any byte
+};
+uint8_t mapb(uint8_t b, int style, bool nz)
+{
+    static const uint8_t tiny[4] = {'a', 'b', 'A', 0xFF};
+    static const uint8_t special[16] = {'a', 0x00, 0x7F, 0x80, 0xFF, 'A', 'z', 'Z',
+                                        '@', '[',  '`',  '{',  0x01, 'b', 'B', 0xFE};
+    static const uint8_t letters[16] = {'a', 'A', 'b', 'B', 'z', 'Z', 'm', 'M',
+                                        '@', '[', '`', '{', '1', ' ', 0xE1, 0xC1};
+    uint8_t r;
+    switch (style)
+    {
+    case BIN:
+        r = (b & 1) ? 'b' : 'a';
+        break;
+    case TINY:
+        r = tiny[b & 3];
+        break;
+    case SPECIAL:
+        r = special[b & 15];
+        break;
+    case LETTERS:
+        r = letters[b & 15];
+        break;
+    default:
+        r = b;
+    }
+    return (nz && r == 0) ? 'a' : r;
+}
+// n content bytes: drawn one by one when short, otherwise a periodic block
+// with a few point mutations (keeps long operands cheap in choice bytes)
+void fill(Src &s, uint8_t *o, size_t n, int style, bool nz)
+{
+    if (n <= 24 || (n <= 96 && !s.coin()))
+    {
+        for (size_t i = 0; i < n; i++)
+            o[i] = mapb(s.u8(), style, nz);
+        return;
+    }
+    uint8_t blk[32];
+    size_t m = 1 + (size_t)s.below(32);
+    for (size_t i = 0; i < m; i++)
+        blk[i] = mapb(s.u8(), style, nz);
+    for (size_t i = 0; i < n; i++)
+        o[i] = blk[i % m];
+    size_t k = (size_t)s.below(4);
+    for (size_t i = 0; i < k; i++)
+        o[s.below(n)] = mapb(s.u8(), style, nz);
+}
+Bytes gen(Src &s, size_t n, int style, bool nz)
+{
+    Bytes b(n);
+    fill(s, b.data(), n, style, nz);
+    return b;
+}
+// length schedule: 0..8, 0..32, 0..96, (thorough) 0..1024; big: favour the long ones
+size_t pick_len(Src &s, bool big = false)
+{
+    size_t w = big ? s.weighted({2, 2, 5, 1}) : s.weighted({4, 3, 2, 1});
+    if (w == 3 && !tier())
+        w = 2;
+    static const int hi[4] = {8, 32, 96, 1024};
+    return (size_t)s.range(0, hi[w]);
+}
+size_t pick_short(Src &s) { return (size_t)s.range(0, s.weighted({3, 2}) ? 24 : 6); }
+// start offset inside a 16-aligned block: 0, 8 (word aligned) or anything 0..15
+size_t pick_off(Src &s)
+{
+    switch (s.weighted({3, 2, 3}))
+    {
+    case 0:
+        return 0;
+    case 1:
+        return 8;
+    default:
+        return (size_t)s.below(16);
+    }
+}
+// n relative to a length L: equal / one above / one below / 0 / inside / beyond
+size_t pick_n(Src &s, size_t L)
+{
+    switch (s.below(7))
+    {
+    case 0:
+        return L;
+    case 1:
+        return L + 1;
+    case 2:
+        return L ? L - 1 : 0;
+    case 3:
+        return 0;
+    case 4:
+        return (size_t)s.below(L + 1);
+    case 5:
+        return L + 2 + (size_t)s.below(8);
+    default:
+        return L ? 1 + (size_t)s.below(L) : 1;
+    }
+}
+// character argument: a character of the string / any / the terminator, passed
+// as unsigned-char value, as (negative) plain-char value, or with high bits set
+// (the definitions convert the int argument to char / unsigned char)
+int pick_ch(Src &s, const Bytes &str, int style, bool *highbits)
+{
+    uint8_t b;
+    switch (s.weighted({5, 2, 1}))
+    {
+    case 0:
+        b = str.empty() ? mapb(s.u8(), style, true) : str[s.below(str.size())];
+        break;
+    case 1:
+        b = mapb(s.u8(), style, false);
+        break;
+    default:
+        b = 0;
+    }
+    *highbits = false;
+    switch (s.weighted({5, 3, 2}))
+    {
+    case 0:
+        return b;
+    case 1:
+        return (int)(signed char)b;
+    default:
+    {
+        static const int add[5] = {256, -256, 512, 0x10000, INT_MIN};
+        *highbits = true;
+        return (int)b + add[s.below(5)];
+    }
+    }
+}
+uint8_t mutate(Src &s, uint8_t old, int style, bool nz)
+{
+    uint8_t r;
+    switch (s.below(4))
+    {
+    case 0:
+        r = (uint8_t)(old ^ 0x80);
+        break;
+    case 1:
+        r = (uint8_t)(old ^ 0x20);
+        break;
+    case 2:
+        r = (uint8_t)(old + 1);
+        break;
+    default:
+        r = mapb(s.u8(), style, nz);
+    }
+    if (nz && r == 0)
+        r = 0x01;
+    return r;
+}
+// second operand of a comparison: equal / one byte changed / prefix / longer / unrelated
+Bytes derive(Src &s, const Bytes &a, int style, bool nz)
+{
+    Bytes b = a;
+    switch (s.weighted({2, 5, 2, 2, 2}))
+    {
+    case 0:
+        break;
+    case 1:
+        if (!b.empty())
+        {
+            size_t p = (size_t)s.below(b.size());
+            b[p] = mutate(s, b[p], style, nz);
+        }
+        break;
+    case 2:
+        b.resize((size_t)s.below(a.size() + 1));
+        break;
+    case 3:
+    {
+        size_t k = 1 + (size_t)s.below(4);
+        for (size_t i = 0; i < k; i++)
+            b.push_back(mapb(s.u8(), style, nz));
+        break;
+    }
+    default:
+        b = gen(s, pick_short(s), style, nz);
+    }
+    return b;
+}
+bool is_alpha(uint8_t c) { return (c >= 'a' && c <= 'z') || (c >= 'A' && c <= 'Z'); }
+uint8_t lo(uint8_t c) { return (c >= 'A' && c <= 'Z') ? (uint8_t)(c + 32) : c; }
+void flip_cases(Src &s, Bytes &b)
+{
+    if (!s.coin())
+        return;
+    for (auto &c : b)
+        if (is_alpha(c) && s.coin())
+            c ^= 0x20;
+}
+// Array operand of an n-function built from a string `str` (no NUL inside):
+// either the terminated string, or — when the string has at least n characters
+// — exactly its first n bytes without terminator (the definition may not read
+// further). Optionally bytes after the terminator that n still covers.
+struct NArr
+{
+    Bytes data;
+    bool unterminated = false, junk = false;
+};
+NArr narr(Src &s, const Bytes &str, size_t n, bool allow_unterminated = true)
+{
+    NArr r;
+    if (allow_unterminated && str.size() >= n && s.chance(2, 3))
+    {
+        r.unterminated = true;
+        r.data.assign(str.begin(), str.begin() + (long)n);
+        return r;
+    }
+    r.data = str;
+    r.data.push_back(0);
+    if (n > str.size() + 1 && s.chance(1, 4))
+    {
+        r.junk = true;
+        size_t k = 1 + (size_t)s.below(3);
+        for (size_t i = 0; i < k; i++)
+            r.data.push_back(mapb(s.u8(), SPECIAL, false));
+    }
+    return r;
+}
+size_t slen(const Bytes &arr) // length of the string held in a terminated array
+{
+    size_t i = 0;
+    while (i < arr.size() && arr[i])
+        i++;
+    return i;
+}
+Bytes cstr(const Bytes &str) // append the terminator
+{
+    Bytes r = str;
+    r.push_back(0);
+    return r;
+}
+
+// =============================================================== chk_* (oracles)
+// ---- memcpy: returns true when the word-copy path was taken
+bool chk_memcpy(const Bytes &src, size_t so, size_t doff, size_t slack)
+{
+    size_t n = src.size();
+    Tight S(src, so);
+    Roomy R(src);
+    Dst G(n + slack, doff), W(n + slack, doff);
+    std::string args = fmt("memcpy n=%zu src_off=%zu dst_off=%zu src=%s", n, so, doff, hx(src).c_str());
+    bool word = n >= 4 * sizeof(long) && (uintptr_t)S.p % sizeof(long) == 0 &&
+                (uintptr_t)G.d % sizeof(long) == 0;
+    void *r = igc_memcpy(G.d, S.p, n);
+    memcpy(W.d, R.p(), n);
+    if (r != G.d)
+        fail("memcpy", "ret", fmt("returned dest%s; ", offs(poff(r, G.d)).c_str()) + args);
+    check_dst("memcpy", G, W, args);
+    check_src("memcpy", S, src, args);
+    return word;
+}
+
+// ---- memmove inside one block; d = dst - src. can = 0: the accessed span is
+// flush against both ends of the heap block. Returns true on the word path.
+bool chk_memmove(const Bytes &content, long d, size_t base, size_t can)
+{
+    size_t n = content.size();
+    size_t srcpos = base + (d < 0 ? (size_t)-d : 0);
+    size_t dstpos = (size_t)((long)srcpos + d);
+    size_t total = std::max(srcpos, dstpos) + n;
+    if (can + total == 0)
+        can = CAN;
+    Exact G(can + total + can), W(can + total + can);
+    for (size_t i = 0; i < G.n; i++)
+        G.p[i] = W.p[i] = (uint8_t)(0x80 | ((i * 29) & 0x7f));
+    if (n)
+    {
+        memcpy(G.p + can + srcpos, content.data(), n);
+        memcpy(W.p + can + srcpos, content.data(), n);
+    }
+    uint8_t *gs = G.p + can + srcpos, *gd = G.p + can + dstpos;
+    bool word = !(d > 0 && (size_t)d < n) && n >= 4 * sizeof(long) &&
+                (uintptr_t)gs % sizeof(long) == 0 && (uintptr_t)gd % sizeof(long) == 0;
+    void *r = igc_memmove(gd, gs, n);
+    memmove(W.p + can + dstpos, W.p + can + srcpos, n);
+    std::string args = fmt("memmove n=%zu dst-src=%ld base=%zu canary=%zu content=%s", n, d, base, can,
+                           hx(content).c_str());
+    if (r != gd)
+        fail("memmove", "ret", fmt("returned dest%s; ", offs(poff(r, gd)).c_str()) + args);
+    if (memcmp(G.p, W.p, G.n))
+    {
+        size_t i = 0;
+        while (G.p[i] == W.p[i])
+            i++;
+        long rel = (long)i - (long)(can + dstpos);
+        fail("memmove", rel >= 0 && (size_t)rel < n ? "dest" : "outside",
+             fmt("first wrong byte at dest%+ld: got %02x want %02x; ", rel, G.p[i], W.p[i]) + args);
+    }
+    return word;
+}
+
+void chk_memset(size_t n, int ch, size_t doff, size_t slack)
+{
+    Dst G(n + slack, doff), W(n + slack, doff);
+    std::string args = fmt("memset n=%zu c=%d dst_off=%zu", n, ch, doff);
+    void *r = igc_memset(G.d, ch, n);
+    memset(W.d, ch, n);
+    if (r != G.d)
+        fail("memset", "ret", fmt("returned dest%s; ", offs(poff(r, G.d)).c_str()) + args);
+    check_dst("memset", G, W, args);
+}
+
+void chk_memcmp(const Bytes &a, const Bytes &b, size_t n, size_t ao, size_t bo)
+{
+    // a and b both hold at least n bytes; the blocks expose exactly n
+    Bytes a_(a.begin(), a.begin() + (long)n), b_(b.begin(), b.begin() + (long)n);
+    Tight A(a_, ao), B(b_, bo);
+    Roomy RA(a_), RB(b_);
+    int g = sgn(igc_memcmp(A.p, B.p, n)), w = sgn(memcmp(RA.p(), RB.p(), n));
+    if (g != w)
+        fail("memcmp", "sign",
+             fmt("sign got %d want %d; memcmp n=%zu a=%s b=%s", g, w, n, hx(a_).c_str(), hx(b_).c_str()));
+}
+
+// memchr: `avail` readable bytes, n may exceed avail only if a match lies inside
+void chk_memchr(const Bytes &buf, int ch, size_t n, size_t off)
+{
+    Tight S(buf, off);
+    Roomy R(buf);
+    long g = poff(igc_memchr(S.p, ch, n), S.p), w = poff(memchr(R.p(), ch, n), R.p());
+    if (g != w)
+        fail("memchr", "ret",
+             fmt("got %s want %s; memchr c=%d n=%zu avail=%zu buf=%s", offs(g).c_str(), offs(w).c_str(), ch,
+                 n, buf.size(), hx(buf).c_str()));
+}
+
+void chk_memrchr(const Bytes &buf, int ch, size_t off, bool at_start)
+{
+    size_t n = buf.size();
+    Tight S(buf, off, at_start);
+    Roomy R(buf);
+    long g = poff(igc_memrchr(S.p, ch, n), S.p), w = poff(memrchr(R.p(), ch, n), R.p());
+    if (g != w)
+        fail("memrchr", "ret",
+             fmt("got %s want %s; memrchr c=%d n=%zu buf=%s", offs(g).c_str(), offs(w).c_str(), ch, n,
+                 hx(buf).c_str()));
+}
+
+void chk_strlen(const Bytes &str, size_t off)
+{
+    Bytes z = cstr(str);
+    Tight S(z, off);
+    Roomy R(z);
+    size_t g = igc_strlen(S.p), w = strlen(R.p());
+    if (g != w)
+        fail("strlen", "value", fmt("got %zu want %zu; s=%s", g, w, hx(str).c_str()));
+}
+
+// arr: terminated, or unterminated with arr.size() >= maxlen
+void chk_strnlen(const Bytes &arr, size_t maxlen, size_t off)
+{
+    Tight S(arr, off);
+    Roomy R(arr);
+    size_t g = igc_strnlen(S.p, maxlen), w = strnlen(R.p(), maxlen);
+    if (g != w)
+        fail("strnlen", "value", fmt("got %zu want %zu; maxlen=%zu arr=%s", g, w, maxlen, hx(arr).c_str()));
+}
+
+void chk_strcpy(const Bytes &str, size_t so, size_t doff, size_t slack)
+{
+    Bytes z = cstr(str);
+    Tight S(z, so);
+    Roomy R(z);
+    Dst G(z.size() + slack, doff), W(z.size() + slack, doff);
+    std::string args = fmt("strcpy src=%s", hx(str).c_str());
+    char *r = igc_strcpy(G.c(), S.p);
+    strcpy(W.c(), R.p());
+    if (r != G.c())
+        fail("strcpy", "ret", fmt("returned dest%s; ", offs(poff(r, G.d)).c_str()) + args);
+    check_dst("strcpy", G, W, args);
+    check_src("strcpy", S, z, args);
+}
+
+void chk_strncpy(const Bytes &arr, size_t n, size_t so, size_t doff, size_t slack)
+{
+    Tight S(arr, so);
+    Roomy R(arr);
+    Dst G(n + slack, doff), W(n + slack, doff);
+    std::string args = fmt("strncpy n=%zu src=%s", n, hx(arr).c_str());
+    char *r = igc_strncpy(G.c(), S.p, n);
+    strncpy(W.c(), R.p(), n);
+    if (r != G.c())
+        fail("strncpy", "ret", fmt("returned dest%s; ", offs(poff(r, G.d)).c_str()) + args);
+    check_dst("strncpy", G, W, args);
+    check_src("strncpy", S, arr, args);
+}
+
+// BSD definition: copy min(strlen(src), size-1) bytes and terminate (size>0);
+// return strlen(src). Returns true when the known return-value class was hit.
+bool chk_strlcpy(const Bytes &str, size_t size, size_t so, size_t doff, size_t slack)
+{
+    Bytes z = cstr(str);
+    size_t L = str.size();
+    Tight S(z, so);
+    Dst G(size + slack, doff), W(size + slack, doff);
+    std::string args = fmt("strlcpy size=%zu src=%s", size, hx(str).c_str());
+    size_t r = igc_strlcpy(G.c(), S.p, size);
+    if (size)
+    {
+        size_t k = std::min(L, size - 1);
+        if (k)
+            memcpy(W.d, str.data(), k);
+        W.d[k] = 0;
+    }
+    check_dst("strlcpy", G, W, args);
+    check_src("strlcpy", S, z, args);
+    bool truncated = size > 0 && L >= size;
+    if (truncated && known_active("C08-strlcpy-return"))
+        return true;
+    if (r != L)
+        fail("strlcpy", truncated ? "ret_truncated" : "ret",
+             fmt("returned %zu, strlen(src)=%zu; ", r, L) + args);
+    return false;
+}
+
+void chk_strcat(const Bytes &dstr, const Bytes &str, size_t so, size_t doff, size_t slack)
+{
+    Bytes z = cstr(str);
+    Tight S(z, so);
+    Roomy R(z);
+    size_t region = dstr.size() + str.size() + 1 + slack;
+    Dst G(region, doff), W(region, doff);
+    if (!dstr.empty())
+    {
+        memcpy(G.d, dstr.data(), dstr.size());
+        memcpy(W.d, dstr.data(), dstr.size());
+    }
+    G.d[dstr.size()] = W.d[dstr.size()] = 0;
+    std::string args = fmt("strcat dest=%s src=%s", hx(dstr).c_str(), hx(str).c_str());
+    char *r = igc_strcat(G.c(), S.p);
+    strcat(W.c(), R.p());
+    if (r != G.c())
+        fail("strcat", "ret", fmt("returned dest%s; ", offs(poff(r, G.d)).c_str()) + args);
+    check_dst("strcat", G, W, args);
+    check_src("strcat", S, z, args);
+}
+
+void chk_strncat(const Bytes &dstr, const Bytes &arr, size_t n, size_t so, size_t doff, size_t slack)
+{
+    Tight S(arr, so);
+    Roomy R(arr);
+    size_t copied = strnlen(R.p(), n);
+    size_t region = dstr.size() + copied + 1 + slack;
+    Dst G(region, doff), W(region, doff);
+    if (!dstr.empty())
+    {
+        memcpy(G.d, dstr.data(), dstr.size());
+        memcpy(W.d, dstr.data(), dstr.size());
+    }
+    G.d[dstr.size()] = W.d[dstr.size()] = 0;
+    std::string args = fmt("strncat n=%zu dest=%s src=%s", n, hx(dstr).c_str(), hx(arr).c_str());
+    char *r = igc_strncat(G.c(), S.p, n);
+    strncat(W.c(), R.p(), n);
+    if (r != G.c())
+        fail("strncat", "ret", fmt("returned dest%s; ", offs(poff(r, G.d)).c_str()) + args);
+    check_dst("strncat", G, W, args);
+    check_src("strncat", S, arr, args);
+}
+
+// ---- comparisons; cs = case-insensitive. a/b: string bytes (terminator appended here)
+void chk_cmp(bool cs, const Bytes &a, const Bytes &b, size_t ao, size_t bo)
+{
+    Bytes az = cstr(a), bz = cstr(b);
+    Tight A(az, ao), B(bz, bo);
+    Roomy RA(az), RB(bz);
+    const char *fn = cs ? "strcasecmp" : "strcmp";
+    int g = sgn(cs ? igc_strcasecmp(A.p, B.p) : igc_strcmp(A.p, B.p));
+    int w = sgn(cs ? strcasecmp(RA.p(), RB.p()) : strcmp(RA.p(), RB.p()));
+    if (g != w)
+        fail(fn, "sign", fmt("sign got %d want %d; a=%s b=%s", g, w, hx(a).c_str(), hx(b).c_str()));
+}
+// arrays: terminated, or unterminated holding >= n bytes
+void chk_ncmp(bool cs, const Bytes &a, const Bytes &b, size_t n, size_t ao, size_t bo)
+{
+    Tight A(a, ao), B(b, bo);
+    Roomy RA(a), RB(b);
+    const char *fn = cs ? "strncasecmp" : "strncmp";
+    int g = sgn(cs ? igc_strncasecmp(A.p, B.p, n) : igc_strncmp(A.p, B.p, n));
+    int w = sgn(cs ? strncasecmp(RA.p(), RB.p(), n) : strncmp(RA.p(), RB.p(), n));
+    if (g != w)
+        fail(fn, "sign",
+             fmt("sign got %d want %d; n=%zu a=%s b=%s", g, w, n, hx(a).c_str(), hx(b).c_str()));
+}
+
+// ---- character searches: which = 0 strchr, 1 strrchr, 2 strchrnul. Returns the host offset.
+long chk_chr(int which, const Bytes &str, int ch, size_t off, bool at_start)
+{
+    static const char *const names[3] = {"strchr", "strrchr", "strchrnul"};
+    Bytes z = cstr(str);
+    Tight S(z, off, at_start);
+    Roomy R(z);
+    long g, w;
+    switch (which)
+    {
+    case 0:
+        g = poff(igc_strchr(S.p, ch), S.p);
+        w = poff(strchr(R.p(), ch), R.p());
+        break;
+    case 1:
+        g = poff(igc_strrchr(S.p, ch), S.p);
+        w = poff(strrchr(R.p(), ch), R.p());
+        break;
+    default:
+        g = poff(igc_strchrnul(S.p, ch), S.p);
+        w = poff(strchrnul(R.p(), ch), R.p());
+    }
+    if (g != w)
+        fail(names[which], (char)ch == 0 ? "ret_terminator" : "ret",
+             fmt("got %s want %s; c=%d (char %02x) s=%s", offs(g).c_str(), offs(w).c_str(), ch,
+                 (unsigned)(uint8_t)ch, hx(str).c_str()));
+    return w;
+}
+
+// ---- substring searches. Returns the host offset.
+long chk_str(bool cs, const Bytes &hay, const Bytes &needle, size_t ho, size_t no)
+{
+    Bytes hz = cstr(hay), nz = cstr(needle);
+    Tight H(hz, ho), N(nz, no);
+    Roomy RH(hz), RN(nz);
+    long g = poff(cs ? igc_strcasestr(H.p, N.p) : igc_strstr(H.p, N.p), H.p);
+    long w = poff(cs ? strcasestr(RH.p(), RN.p()) : strstr(RH.p(), RN.p()), RH.p());
+    if (g != w)
+        fail(cs ? "strcasestr" : "strstr", "ret",
+             fmt("got %s want %s; haystack=%s needle=%s", offs(g).c_str(), offs(w).c_str(),
+                 hx(hay).c_str(), hx(needle).c_str()));
+    return w;
+}
+
+// ---- span functions: which = 0 strspn, 1 strcspn, 2 strpbrk. Returns the host result.
+long chk_span(int which, const Bytes &str, const Bytes &set, size_t so, size_t to)
+{
+    static const char *const names[3] = {"strspn", "strcspn", "strpbrk"};
+    Bytes sz = cstr(str), tz = cstr(set);
+    Tight S(sz, so), T(tz, to);
+    Roomy RS(sz), RT(tz);
+    long g, w;
+    switch (which)
+    {
+    case 0:
+        g = (long)igc_strspn(S.p, T.p);
+        w = (long)strspn(RS.p(), RT.p());
+        break;
+    case 1:
+        g = (long)igc_strcspn(S.p, T.p);
+        w = (long)strcspn(RS.p(), RT.p());
+        break;
+    default:
+        g = poff(igc_strpbrk(S.p, T.p), S.p);
+        w = poff(strpbrk(RS.p(), RT.p()), RS.p());
+    }
+    if (g != w)
+        fail(names[which], "ret",
+             fmt("got %s want %s; s=%s set=%s", which == 2 ? offs(g).c_str() : fmt("%ld", g).c_str(),
+                 which == 2 ? offs(w).c_str() : fmt("%ld", w).c_str(), hx(str).c_str(), hx(set).c_str()));
+    return w;
+}
+
+// ---- strtok / strtok_r: one call sequence to exhaustion over one string.
+// next_set() yields the index of the delimiter set for each call. After the
+// first NULL the call is repeated once with the same set (must stay NULL) when
+// a token has been returned before (so that a save pointer into this string
+// exists under every reading of the definition). The delimiter set is not
+// changed after a NULL: the standards leave open where the search then resumes.
+struct TokStat
+{
+    int tokens = 0, calls = 0, set_changes = 0;
+};
+TokStat chk_strtok(bool reent, const Bytes &str, size_t off, const std::vector<Bytes> &sets,
+                   const std::function<size_t()> &next_set)
+{
+    const char *fn = reent ? "strtok_r" : "strtok";
+    Bytes z = cstr(str);
+    Tight G(z, off);
+    Roomy W(z);
+    std::vector<Bytes> setz;
+    for (auto &d : sets)
+        setz.push_back(cstr(d));
+    std::vector<std::unique_ptr<Tight>> gs;
+    std::vector<std::unique_ptr<Roomy>> ws;
+    for (size_t i = 0; i < setz.size(); i++)
+    {
+        gs.emplace_back(new Tight(setz[i], (i * 5) & 15));
+        ws.emplace_back(new Roomy(setz[i]));
+    }
+    // the first call must ignore *saveptr: start from a poisoned value
+    char *gsave = (char *)(uintptr_t)0x10, *wsave = (char *)(uintptr_t)0x10;
+    TokStat st;
+    std::vector<std::pair<size_t, long>> hist;
+    auto trace = [&]() {
+        std::string t;
+        for (size_t i = 0; i < hist.size(); i++)
+            t += fmt(" #%zu delim=%s->%s", i, hx(sets[hist[i].first]).c_str(), offs(hist[i].second).c_str());
+        return t;
+    };
+    size_t prev = (size_t)-1;
+    size_t maxcalls = str.size() + 3;
+    bool done = false;
+    for (size_t call = 0; call < maxcalls; call++)
+    {
+        size_t si = done ? prev : next_set() % sets.size();
+        if (prev != (size_t)-1 && si != prev)
+            st.set_changes++;
+        prev = si;
+        char *ga = call == 0 ? G.p : nullptr, *wa = call == 0 ? W.p() : nullptr;
+        char *gr = reent ? igc_strtok_r(ga, gs[si]->p, &gsave) : igc_strtok(ga, gs[si]->p);
+        char *wr = reent ? strtok_r(wa, ws[si]->p(), &wsave) : strtok(wa, ws[si]->p());
+        st.calls++;
+        long g = poff(gr, G.p), w = poff(wr, W.p());
+        hist.emplace_back(si, w);
+        if (g != w)
+            fail(fn, done ? "ret_after_null" : "ret",
+                 fmt("call %zu returned %s want %s; s=%s calls:%s", call, offs(g).c_str(), offs(w).c_str(),
+                     hx(str).c_str(), trace().c_str()));
+        if (memcmp(G.p, W.p(), z.size()))
+            fail(fn, "buffer",
+                 fmt("string buffer differs after call %zu: got %s want %s; s=%s calls:%s", call,
+                     hexdump(G.p, z.size(), 48).c_str(), hexdump(W.p(), z.size(), 48).c_str(),
+                     hx(str).c_str(), trace().c_str()));
+        if (!gs[si]->same(setz[si]))
+            fail(fn, "source_modified", "delimiter string written; s=" + hx(str) + " calls:" + trace());
+        if (done)
+            break;
+        if (wr)
+            st.tokens++;
+        else
+        {
+            if (st.tokens == 0)
+                break;
+            done = true;
+        }
+    }
+    return st;
+}
+
+void chk_strdup(const Bytes &str, size_t off)
+{
+    Bytes z = cstr(str);
+    Tight S(z, off);
+    char *r = igc_strdup(S.p);
+    if (!r)
+        fail("strdup", "null", "returned NULL; s=" + hx(str));
+    if (r == S.p)
+        fail("strdup", "alias", "returned its argument");
+    bool ok = memcmp(r, z.data(), z.size()) == 0; // ASan: the allocation holds strlen+1 bytes
+    std::string got = hexdump(r, z.size(), 48);
+    free(r); // ASan: r came from malloc
+    if (!ok)
+        fail("strdup", "content", "copy differs: got " + got + " s=" + hx(str));
+    check_src("strdup", S, z, "s=" + hx(str));
+}
+
+// arr: terminated, or unterminated with arr.size() >= n
+void chk_strndup(const Bytes &arr, size_t n, size_t off)
+{
+    Tight S(arr, off);
+    size_t want = std::min(slen(arr), n);
+    char *r = igc_strndup(S.p, n);
+    std::string args = fmt("n=%zu s=%s", n, hx(arr).c_str());
+    if (!r)
+        fail("strndup", "null", "returned NULL; " + args);
+    bool ok = (want == 0 || memcmp(r, arr.data(), want) == 0) && r[want] == 0;
+    std::string got = hexdump(r, want + 1, 48);
+    free(r);
+    if (!ok)
+        fail("strndup", "content", "copy differs: got " + got + " " + args);
+    check_src("strndup", S, arr, args);
+}
+
+// strlwr / strupr: ASCII letters of the other case are mapped, everything else
+// (including bytes >= 0x80) is left alone; returns its argument. Returns the
+// number of characters the reference changed.
+size_t chk_case(bool upper, const Bytes &str, size_t doff, size_t slack)
+{
+    const char *fn = upper ? "strupr" : "strlwr";
+    size_t L = str.size(), changed = 0;
+    Dst G(L + 1 + slack, doff), W(L + 1 + slack, doff);
+    for (size_t i = 0; i < L; i++)
+    {
+        uint8_t ch = str[i];
+        G.d[i] = ch;
+        if (upper ? (ch >= 'a' && ch <= 'z') : (ch >= 'A' && ch <= 'Z'))
+        {
+            ch ^= 0x20;
+            changed++;
+        }
+        W.d[i] = ch;
+    }
+    G.d[L] = W.d[L] = 0;
+    std::string args = "s=" + hx(str);
+    char *r = upper ? igc_strupr(G.c()) : igc_strlwr(G.c());
+    if (r != G.c())
+        fail(fn, "ret", fmt("returned arg%s; ", offs(poff(r, G.d)).c_str()) + args);
+    check_dst(fn, G, W, args);
+    return changed;
+}
+
+// ============================================================ f_* (generators)
+void f_memcpy(Src &s, Case &c)
+{
+    c.label("memcpy");
+    size_t n = pick_len(s, true), so = pick_off(s), doff = pick_off(s), slack = (size_t)s.below(4);
+    Bytes src = gen(s, n, (int)s.pick({FULL, SPECIAL}), false);
+    c.log("memcpy n=%zu src_off=%zu dst_off=%zu slack=%zu src=%s", n, so, doff, slack, hx(src, 200).c_str());
+    bool word = chk_memcpy(src, so, doff, slack);
+    c.nontrivial = word;
+    if (word)
+        c.label(n % sizeof(long) ? "memcpy:word_path+tail" : "memcpy:word_path");
+    else if (n >= 4 * sizeof(long))
+        c.label("memcpy:long_unaligned");
+    if (n == 0)
+        c.label("memcpy:n0");
+}
+
+void f_memmove(Src &s, Case &c)
+{
+    c.label("memmove");
+    size_t n = pick_len(s, true), base = pick_off(s);
+    long d;
+    size_t kind = n ? s.weighted({4, 4, 2, 1}) : 3;
+    switch (kind)
+    {
+    case 0:
+        d = (long)s.range(1, (long)n); // dst above src; d == n: adjacent
+        break;
+    case 1:
+        d = -(long)s.range(1, (long)n);
+        break;
+    case 2:
+        d = (s.coin() ? 1 : -1) * (long)(n + (size_t)s.below(17));
+        break;
+    default:
+        d = s.range(-3, 3);
+    }
+    // word-aligned distances exercise the forward word copy over overlapping ranges
+    if (kind <= 1 && s.chance(1, 3))
+    {
+        long a = d < 0 ? -d : d;
+        a = (a + 7) / 8 * 8;
+        if ((size_t)a <= n)
+            d = d < 0 ? -a : a;
+    }
+    size_t can = s.coin() ? CAN : 0;
+    Bytes content = gen(s, n, (int)s.pick({FULL, SPECIAL}), false);
+    c.log("memmove n=%zu dst-src=%ld base=%zu canary=%zu content=%s", n, d, base, can, hx(content, 200).c_str());
+    bool word = chk_memmove(content, d, base, can);
+    bool overlap = d != 0 && (size_t)(d < 0 ? -d : d) < n;
+    c.nontrivial = overlap || word;
+    if (overlap)
+        c.label(d > 0 ? "memmove:overlap_dst_above" : "memmove:overlap_dst_below");
+    else if (d == 0 && n)
+        c.label("memmove:same");
+    else
+        c.label("memmove:disjoint");
+    if (word)
+        c.label(overlap ? "memmove:word_path_overlap" : "memmove:word_path");
+}
+
+void f_memset(Src &s, Case &c)
+{
+    c.label("memset");
+    size_t n = pick_len(s), doff = pick_off(s), slack = (size_t)s.below(4);
+    int ch;
+    switch (s.weighted({4, 2, 2}))
+    {
+    case 0:
+        ch = mapb(s.u8(), SPECIAL, false);
+        break;
+    case 1:
+        ch = (int)s.range(-128, 255);
+        break;
+    default:
+        ch = s.biased_int<int32_t>();
+    }
+    c.log("memset n=%zu c=%d dst_off=%zu slack=%zu", n, ch, doff, slack);
+    chk_memset(n, ch, doff, slack);
+    c.nontrivial = n >= 1;
+    if (ch < 0 || ch > 255)
+        c.label("memset:c_outside_uchar");
+    if (n == 0)
+        c.label("memset:n0");
+}
+
+void f_memcmp(Src &s, Case &c)
+{
+    c.label("memcmp");
+    size_t n = pick_len(s), ao = pick_off(s), bo = pick_off(s);
+    int style = (int)s.pick({SPECIAL, FULL, TINY});
+    Bytes a = gen(s, n, style, false), b = a;
+    switch (s.weighted({2, 5, 2}))
+    {
+    case 0:
+        break;
+    case 1:
+        if (n)
+        {
+            size_t p = (size_t)s.below(n);
+            b[p] = mutate(s, b[p], style, false);
+        }
+        break;
+    default:
+        b = gen(s, n, style, false);
+    }
+    size_t p = 0;
+    while (p < n && a[p] == b[p])
+        p++;
+    c.log("memcmp n=%zu a_off=%zu b_off=%zu a=%s b=%s", n, ao, bo, hx(a, 200).c_str(), hx(b, 200).c_str());
+    chk_memcmp(a, b, n, ao, bo);
+    bool high = p < n && ((a[p] | b[p]) & 0x80);
+    c.nontrivial = n > 0 && (p == n || high);
+    if (p == n)
+        c.label(n ? "memcmp:equal" : "memcmp:n0");
+    else
+        c.label(high ? "memcmp:diff_highbit" : "memcmp:diff_ascii");
+}
+
+void f_memchr(Src &s, Case &c)
+{
+    c.label("memchr");
+    size_t n = pick_len(s), off = pick_off(s);
+    int style = (int)s.pick({TINY, SPECIAL, FULL});
+    Bytes buf = gen(s, n, style, false);
+    bool hb;
+    int ch = pick_ch(s, buf, style, &hb);
+    size_t m = 0;
+    while (m < n && buf[m] != (uint8_t)ch)
+        m++;
+    // C11 7.24.5.1p2: reads sequentially and stops at the match, so n may exceed the object then
+    size_t nn = n;
+    if (m < n && s.chance(1, 5))
+    {
+        nn = n + 1 + (size_t)s.below(16);
+        c.label("memchr:n_beyond_object_after_match");
+    }
+    else if (s.chance(1, 4))
+    {
+        nn = (size_t)s.below(n + 1);
+        buf.resize(nn);
+        if (m >= nn)
+            m = nn;
+        n = nn;
+    }
+    c.log("memchr c=%d n=%zu avail=%zu off=%zu buf=%s", ch, nn, buf.size(), off, hx(buf, 200).c_str());
+    chk_memchr(buf, ch, nn, off);
+    c.nontrivial = m < n && m >= 1;
+    c.label(m >= n ? "memchr:absent" : m ? "memchr:found_later" : "memchr:found_first");
+    if (hb)
+        c.label("memchr:c_highbits");
+}
+
+void f_memrchr(Src &s, Case &c)
+{
+    c.label("memrchr");
+    size_t n = pick_len(s), off = pick_off(s);
+    bool at_start = s.coin();
+    int style = (int)s.pick({TINY, SPECIAL, FULL});
+    Bytes buf = gen(s, n, style, false);
+    bool hb;
+    int ch = pick_ch(s, buf, style, &hb);
+    c.log("memrchr c=%d n=%zu off=%zu flush=%s buf=%s", ch, n, off, at_start ? "start" : "end",
+          hx(buf, 200).c_str());
+    if (n == 0)
+    {
+        c.label("memrchr:n0");
+        if (known_active("C08-memrchr-n0"))
+        {
+            c.known_hit("C08-memrchr-n0");
+            return;
+        }
+    }
+    chk_memrchr(buf, ch, off, at_start);
+    size_t cnt = 0, last = 0;
+    for (size_t i = 0; i < n; i++)
+        if (buf[i] == (uint8_t)ch)
+        {
+            cnt++;
+            last = i;
+        }
+    c.nontrivial = cnt >= 1 && n >= 2 && last + 1 < n;
+    c.label(!cnt ? "memrchr:absent" : cnt > 1 ? "memrchr:several" : "memrchr:one");
+    if (cnt && last == 0)
+        c.label("memrchr:only_at_index0");
+}
+
+void f_strlen(Src &s, Case &c)
+{
+    c.label("strlen");
+    size_t L = pick_len(s), off = pick_off(s);
+    Bytes str = gen(s, L, (int)s.pick({SPECIAL, FULL, TINY}), true);
+    c.log("strlen off=%zu s=%s", off, hx(str, 200).c_str());
+    chk_strlen(str, off);
+    c.nontrivial = L >= 1;
+    if (!L)
+        c.label("strlen:empty");
+}
+
+void f_strnlen(Src &s, Case &c)
+{
+    c.label("strnlen");
+    size_t L = pick_len(s), off = pick_off(s);
+    Bytes str = gen(s, L, (int)s.pick({SPECIAL, FULL, TINY}), true);
+    size_t n = s.chance(1, 12) ? SIZE_MAX : pick_n(s, L);
+    NArr a = narr(s, str, n);
+    c.log("strnlen maxlen=%zu off=%zu %s arr=%s", n, off, a.unterminated ? "unterminated" : "terminated",
+          hx(a.data, 200).c_str());
+    chk_strnlen(a.data, n, off);
+    c.nontrivial = n <= L && n >= 1;
+    c.label(a.unterminated ? "strnlen:unterminated" : n <= L ? "strnlen:cut_terminated" : "strnlen:full");
+    if (n == 0)
+        c.label("strnlen:n0");
+}
+
+void f_strcpy(Src &s, Case &c)
+{
+    c.label("strcpy");
+    size_t L = pick_len(s), so = pick_off(s), doff = pick_off(s), slack = (size_t)s.below(4);
+    Bytes str = gen(s, L, (int)s.pick({SPECIAL, FULL, LETTERS}), true);
+    c.log("strcpy src_off=%zu dst_off=%zu slack=%zu src=%s", so, doff, slack, hx(str, 200).c_str());
+    chk_strcpy(str, so, doff, slack);
+    c.nontrivial = L >= 1;
+    if (!L)
+        c.label("strcpy:empty");
+}
+
+void f_strncpy(Src &s, Case &c)
+{
+    c.label("strncpy");
+    size_t L = pick_len(s), so = pick_off(s), doff = pick_off(s), slack = (size_t)s.below(4);
+    Bytes str = gen(s, L, (int)s.pick({SPECIAL, FULL, LETTERS}), true);
+    size_t n = pick_n(s, L);
+    NArr a = narr(s, str, n);
+    c.log("strncpy n=%zu src_off=%zu dst_off=%zu slack=%zu %s src=%s", n, so, doff, slack,
+          a.unterminated ? "unterminated" : "terminated", hx(a.data, 200).c_str());
+    chk_strncpy(a.data, n, so, doff, slack);
+    c.nontrivial = n >= 1 && (n <= L || n > L + 1);
+    c.label(n <= L ? (a.unterminated ? "strncpy:truncated_unterminated_src" : "strncpy:truncated")
+                   : n == L + 1 ? "strncpy:exact" : "strncpy:padded");
+    if (a.junk)
+        c.label("strncpy:junk_after_nul");
+    if (n == 0)
+        c.label("strncpy:n0");
+}
+
+void f_strlcpy(Src &s, Case &c)
+{
+    c.label("strlcpy");
+    size_t L = pick_len(s), so = pick_off(s), doff = pick_off(s), slack = (size_t)s.below(4);
+    Bytes str = gen(s, L, (int)s.pick({SPECIAL, FULL, LETTERS}), true);
+    size_t size = pick_n(s, L);
+    c.log("strlcpy size=%zu src_off=%zu dst_off=%zu slack=%zu src=%s", size, so, doff, slack,
+          hx(str, 200).c_str());
+    if (chk_strlcpy(str, size, so, doff, slack))
+        c.known_hit("C08-strlcpy-return");
+    bool trunc = L >= size;
+    c.nontrivial = trunc && L >= 1;
+    c.label(size == 0 ? "strlcpy:size0" : trunc ? "strlcpy:truncated" : "strlcpy:fits");
+}
+
+void f_strcat(Src &s, Case &c)
+{
+    c.label("strcat");
+    size_t D = pick_len(s), L = pick_len(s), so = pick_off(s), doff = pick_off(s), slack = (size_t)s.below(4);
+    int style = (int)s.pick({SPECIAL, FULL, LETTERS});
+    Bytes dstr = gen(s, D, style, true), str = gen(s, L, style, true);
+    c.log("strcat src_off=%zu dst_off=%zu slack=%zu dest=%s src=%s", so, doff, slack, hx(dstr, 200).c_str(),
+          hx(str, 200).c_str());
+    chk_strcat(dstr, str, so, doff, slack);
+    c.nontrivial = D >= 1 && L >= 1;
+    if (!D)
+        c.label("strcat:empty_dest");
+    if (!L)
+        c.label("strcat:empty_src");
+}
+
+void f_strncat(Src &s, Case &c)
+{
+    c.label("strncat");
+    size_t D = pick_short(s), L = pick_len(s), so = pick_off(s), doff = pick_off(s), slack = (size_t)s.below(4);
+    int style = (int)s.pick({SPECIAL, FULL, LETTERS});
+    Bytes dstr = gen(s, D, style, true), str = gen(s, L, style, true);
+    size_t n = s.chance(1, 12) ? SIZE_MAX : pick_n(s, L);
+    NArr a = narr(s, str, n);
+    c.log("strncat n=%zu src_off=%zu dst_off=%zu slack=%zu %s dest=%s src=%s", n, so, doff, slack,
+          a.unterminated ? "unterminated" : "terminated", hx(dstr, 200).c_str(), hx(a.data, 200).c_str());
+    chk_strncat(dstr, a.data, n, so, doff, slack);
+    c.nontrivial = n >= 1 && L >= 1 && (n < L || n >= 4);
+    c.label(n < L ? "strncat:truncated" : n == L ? "strncat:n_eq_len" : "strncat:whole");
+    if (a.unterminated)
+        c.label("strncat:unterminated_src");
+    if (n >= 4)
+        c.label(n % 4 ? "strncat:unrolled+tail" : "strncat:unrolled");
+    if (n == 0)
+        c.label("strncat:n0");
+    if (!D)
+        c.label("strncat:empty_dest");
+}
+
+// shared by strcmp / strncmp / strcasecmp / strncasecmp
+void f_cmp_common(Src &s, Case &c, bool cs, bool withn, const char *fn, const char *const lab[6])
+{
+    c.label(fn);
+    size_t L = pick_len(s), ao = pick_off(s), bo = pick_off(s);
+    int style = cs ? (int)s.pick({LETTERS, SPECIAL, TINY}) : (int)s.pick({SPECIAL, FULL, TINY, LETTERS});
+    Bytes a = gen(s, L, style, true);
+    Bytes b = derive(s, a, style, true);
+    if (cs)
+        flip_cases(s, b);
+    if (s.coin())
+        std::swap(a, b);
+    // first difference (under the function's equivalence) in the terminated strings
+    Bytes az = cstr(a), bz = cstr(b);
+    size_t p = 0;
+    bool folded = false;
+    for (;; p++)
+    {
+        uint8_t x = az[p], y = bz[p];
+        if (cs ? lo(x) != lo(y) : x != y)
+            break;
+        if (x != y)
+            folded = true;
+        if (!x)
+            break;
+    }
+    bool differ = cs ? lo(az[p]) != lo(bz[p]) : az[p] != bz[p];
+    bool high = differ && ((az[p] | bz[p]) & 0x80);
+    if (!withn)
+    {
+        c.log("%s a_off=%zu b_off=%zu a=%s b=%s", fn, ao, bo, hx(a, 200).c_str(), hx(b, 200).c_str());
+        chk_cmp(cs, a, b, ao, bo);
+        c.nontrivial = p >= 1 && (high || !differ || (cs && folded) || !az[p] || !bz[p]);
+        c.label(!differ ? lab[0] : high ? lab[1] : (!az[p] || !bz[p]) ? lab[2] : lab[3]);
+        if (cs && folded)
+            c.label(lab[4]);
+        return;
+    }
+    size_t n;
+    switch (s.below(8))
+    {
+    case 0:
+        n = p;
+        break;
+    case 1:
+        n = p + 1;
+        break;
+    case 2:
+        n = p ? p - 1 : 0;
+        break;
+    case 3:
+        n = 0;
+        break;
+    case 4:
+        n = SIZE_MAX;
+        break;
+    case 5:
+        n = std::max(a.size(), b.size()) + 1 + (size_t)s.below(4);
+        break;
+    default:
+        n = (size_t)s.below(std::max(a.size(), b.size()) + 2);
+    }
+    NArr xa = narr(s, a, n), xb = narr(s, b, n);
+    c.log("%s n=%zu a_off=%zu b_off=%zu a(%s)=%s b(%s)=%s", fn, n, ao, bo,
+          xa.unterminated ? "unterminated" : "terminated", hx(xa.data, 200).c_str(),
+          xb.unterminated ? "unterminated" : "terminated", hx(xb.data, 200).c_str());
+    chk_ncmp(cs, xa.data, xb.data, n, ao, bo);
+    bool cut = n <= p; // n ends the comparison before the first difference / the terminator
+    c.nontrivial = n >= 1 && (cut || (p < n && high) || (cs && folded && p >= 1));
+    c.label(n == 0 ? lab[5] : cut ? lab[0] : !differ ? lab[2] : high ? lab[1] : lab[3]);
+    if (cs && folded)
+        c.label(lab[4]);
+    if (xa.unterminated || xb.unterminated)
+        c.label(cs ? "strncasecmp:unterminated" : "strncmp:unterminated");
+    if (xa.junk || xb.junk)
+        c.label(cs ? "strncasecmp:junk_after_nul" : "strncmp:junk_after_nul");
+}
+void f_strcmp(Src &s, Case &c)
+{
+    static const char *const lab[6] = {"strcmp:equal", "strcmp:diff_highbit", "strcmp:prefix",
+                                       "strcmp:diff_ascii", "", ""};
+    f_cmp_common(s, c, false, false, "strcmp", lab);
+}
+void f_strncmp(Src &s, Case &c)
+{
+    static const char *const lab[6] = {"strncmp:n_cuts", "strncmp:diff_highbit", "strncmp:equal",
+                                       "strncmp:diff_other", "", "strncmp:n0"};
+    f_cmp_common(s, c, false, true, "strncmp", lab);
+}
+void f_strcasecmp(Src &s, Case &c)
+{
+    static const char *const lab[6] = {"strcasecmp:equal", "strcasecmp:diff_highbit", "strcasecmp:prefix",
+                                       "strcasecmp:diff_ascii", "strcasecmp:case_folded", ""};
+    f_cmp_common(s, c, true, false, "strcasecmp", lab);
+}
+void f_strncasecmp(Src &s, Case &c)
+{
+    static const char *const lab[6] = {"strncasecmp:n_cuts",     "strncasecmp:diff_highbit",
+                                       "strncasecmp:equal",      "strncasecmp:diff_other",
+                                       "strncasecmp:case_folded", "strncasecmp:n0"};
+    f_cmp_common(s, c, true, true, "strncasecmp", lab);
+}
+
+void f_chr_common(Src &s, Case &c, int which, const char *fn, const char *const lab[6])
+{
+    c.label(fn);
+    size_t L = pick_len(s), off = pick_off(s);
+    bool at_start = which == 1 && s.coin();
+    int style = (int)s.pick({TINY, SPECIAL, FULL, BIN});
+    Bytes str = gen(s, L, style, true);
+    bool hb;
+    int ch = pick_ch(s, str, style, &hb);
+    c.log("%s c=%d off=%zu flush=%s s=%s", fn, ch, off, at_start ? "start" : "end", hx(str, 200).c_str());
+    bool term = (char)ch == 0;
+    if (which == 0 && term && ch != 0)
+    {
+        // c != 0 whose conversion to char is 0 (256, -256, ...): must find the terminator
+        c.label("strchr:nonzero_int_converting_to_nul");
+        if (known_active("C08-strchr-int-nul"))
+        {
+            c.known_hit("C08-strchr-int-nul");
+            return;
+        }
+    }
+    long w = chk_chr(which, str, ch, off, at_start);
+    size_t cnt = 0;
+    for (auto x : str)
+        cnt += x == (uint8_t)ch;
+    if (which == 1)
+        c.nontrivial = !term && cnt >= 2;
+    else
+        c.nontrivial = !term && cnt >= 1 && w >= 1;
+    c.label(term ? lab[0] : !cnt ? lab[1] : (which == 1 ? cnt >= 2 : w >= 1) ? lab[2] : lab[3]);
+    if (hb)
+        c.label(lab[4]);
+    if ((uint8_t)ch >= 0x80)
+        c.label(lab[5]);
+}
+void f_strchr(Src &s, Case &c)
+{
+    static const char *const lab[6] = {"strchr:terminator", "strchr:absent",     "strchr:found_later",
+                                       "strchr:found_first", "strchr:c_highbits", "strchr:c_ge_0x80"};
+    f_chr_common(s, c, 0, "strchr", lab);
+}
+void f_strrchr(Src &s, Case &c)
+{
+    static const char *const lab[6] = {"strrchr:terminator", "strrchr:absent",     "strrchr:several",
+                                       "strrchr:one",        "strrchr:c_highbits", "strrchr:c_ge_0x80"};
+    f_chr_common(s, c, 1, "strrchr", lab);
+}
+void f_strchrnul(Src &s, Case &c)
+{
+    static const char *const lab[6] = {"strchrnul:terminator",  "strchrnul:absent",
+                                       "strchrnul:found_later", "strchrnul:found_first",
+                                       "strchrnul:c_highbits",  "strchrnul:c_ge_0x80"};
+    f_chr_common(s, c, 2, "strchrnul", lab);
+}
+
+void f_str_common(Src &s, Case &c, bool cs, const char *fn, const char *const lab[8])
+{
+    c.label(fn);
+    size_t L = pick_len(s), ho = pick_off(s), no = pick_off(s);
+    int style = cs ? (int)s.pick({LETTERS, BIN, TINY}) : (int)s.pick({BIN, TINY, SPECIAL, LETTERS});
+    Bytes hay = gen(s, L, style, true), needle;
+    size_t kind = s.weighted({5, 4, 3, 1, 2, 1, 1});
+    switch (kind)
+    {
+    case 0: // substring (start / middle / end)
+    case 1: // substring whose last character is changed: a partial match
+    {
+        size_t a = 0, len = 0;
+        if (L)
+        {
+            a = s.chance(1, 4) ? 0 : (size_t)s.below(L);
+            len = s.chance(1, 4) ? L - a : 1 + (size_t)s.below(std::min<size_t>(L - a, 8));
+        }
+        needle.assign(hay.begin() + (long)a, hay.begin() + (long)(a + len));
+        if (kind == 1 && len)
+            needle[len - 1] = mutate(s, needle[len - 1], style, true);
+        break;
+    }
+    case 2: // tail of the haystack continued past its end: partial match at the end
+    {
+        size_t len = L ? 1 + (size_t)s.below(std::min<size_t>(L, 6)) : 0;
+        needle.assign(hay.end() - (long)len, hay.end());
+        needle.push_back(mapb(s.u8(), style, true));
+        break;
+    }
+    case 3:
+        break; // empty needle
+    case 4:
+        needle = gen(s, 1 + (size_t)s.below(4), style, true);
+        break;
+    case 5: // longer than the haystack
+        needle = hay;
+        needle.push_back(mapb(s.u8(), style, true));
+        break;
+    default:
+        needle = hay;
+    }
+    if (cs)
+        flip_cases(s, needle);
+    c.log("%s hay_off=%zu needle_off=%zu haystack=%s needle=%s", fn, ho, no, hx(hay, 200).c_str(),
+          hx(needle, 100).c_str());
+    long w = chk_str(cs, hay, needle, ho, no);
+    // did an earlier attempt match at least one character and then fail?
+    bool partial = false;
+    if (!needle.empty())
+    {
+        size_t lim = w == NOPTR ? L : (size_t)w;
+        for (size_t i = 0; i < lim && !partial; i++)
+            partial = cs ? lo(hay[i]) == lo(needle[0]) : hay[i] == needle[0];
+    }
+    c.nontrivial = !needle.empty() && (w >= 1 || (partial && needle.size() >= 2));
+    c.label(needle.empty() ? lab[0] : w == NOPTR ? lab[1] : w == 0 ? lab[2] : lab[3]);
+    if (partial && needle.size() >= 2)
+        c.label(lab[4]);
+    if (w != NOPTR && !needle.empty() && (size_t)w + needle.size() == L)
+        c.label(lab[5]);
+    if (needle.size() > L)
+        c.label(lab[6]);
+    if (cs && w != NOPTR && !needle.empty() && memcmp(hay.data() + w, needle.data(), needle.size()) != 0)
+        c.label(lab[7]);
+}
+void f_strstr(Src &s, Case &c)
+{
+    static const char *const lab[8] = {"strstr:empty_needle",    "strstr:absent",      "strstr:at_start",
+                                       "strstr:found_later",     "strstr:restart_after_partial",
+                                       "strstr:match_at_end",    "strstr:needle_longer", ""};
+    f_str_common(s, c, false, "strstr", lab);
+}
+void f_strcasestr(Src &s, Case &c)
+{
+    static const char *const lab[8] = {"strcasestr:empty_needle", "strcasestr:absent",
+                                       "strcasestr:at_start",     "strcasestr:found_later",
+                                       "strcasestr:restart_after_partial", "strcasestr:match_at_end",
+                                       "strcasestr:needle_longer", "strcasestr:case_folded_match"};
+    f_str_common(s, c, true, "strcasestr", lab);
+}
+
+Bytes gen_set(Src &s, const Bytes &str, int style)
+{
+    Bytes set;
+    size_t m;
+    switch (s.weighted({4, 1, 2, 1}))
+    {
+    case 0: // some characters of the string
+        m = 1 + (size_t)s.below(3);
+        for (size_t i = 0; i < m; i++)
+            set.push_back(str.empty() ? mapb(s.u8(), style, true) : str[s.below(str.size())]);
+        break;
+    case 1:
+        break; // empty set
+    case 2: // arbitrary characters
+        m = 1 + (size_t)s.below(4);
+        for (size_t i = 0; i < m; i++)
+            set.push_back(mapb(s.u8(), style, true));
+        break;
+    default: // every character of the string (if short)
+        for (size_t i = 0; i < str.size() && i < 12; i++)
+            set.push_back(str[i]);
+    }
+    return set;
+}
+void f_span_common(Src &s, Case &c, int which, const char *fn, const char *const lab[5])
+{
+    c.label(fn);
+    size_t L = pick_len(s), so = pick_off(s), to = pick_off(s);
+    int style = (int)s.pick({TINY, SPECIAL, LETTERS, FULL});
+    Bytes str = gen(s, L, style, true);
+    Bytes set = gen_set(s, str, style);
+    c.log("%s s_off=%zu set_off=%zu s=%s set=%s", fn, so, to, hx(str, 200).c_str(), hx(set, 60).c_str());
+    long w = chk_span(which, str, set, so, to);
+    bool stop_inside = which == 2 ? (w != NOPTR && w >= 1) : (w >= 1 && (size_t)w < L);
+    c.nontrivial = stop_inside;
+    if (set.empty())
+        c.label(lab[0]);
+    else if (stop_inside)
+        c.label(lab[1]);
+    else if (which == 2 ? w == NOPTR : (size_t)w == L)
+        c.label(lab[2]);
+    else
+        c.label(lab[3]);
+    for (auto x : set)
+        if (x >= 0x80)
+        {
+            c.label(lab[4]);
+            break;
+        }
+}
+void f_strspn(Src &s, Case &c)
+{
+    static const char *const lab[5] = {"strspn:empty_set", "strspn:stops_inside", "strspn:whole_string",
+                                       "strspn:zero", "strspn:set_highbit"};
+    f_span_common(s, c, 0, "strspn", lab);
+}
+void f_strcspn(Src &s, Case &c)
+{
+    static const char *const lab[5] = {"strcspn:empty_set", "strcspn:stops_inside", "strcspn:whole_string",
+                                       "strcspn:zero", "strcspn:set_highbit"};
+    f_span_common(s, c, 1, "strcspn", lab);
+}
+void f_strpbrk(Src &s, Case &c)
+{
+    static const char *const lab[5] = {"strpbrk:empty_set", "strpbrk:found_later", "strpbrk:absent",
+                                       "strpbrk:found_first", "strpbrk:set_highbit"};
+    f_span_common(s, c, 2, "strpbrk", lab);
+}
+
+void f_tok_common(Src &s, Case &c, bool reent, const char *fn, const char *const lab[5])
+{
+    c.label(fn);
+    size_t L = pick_len(s), off = pick_off(s);
+    int style = (int)s.pick({TINY, BIN, SPECIAL, LETTERS});
+    Bytes str = gen(s, L, style, true);
+    std::vector<Bytes> sets(3);
+    for (auto &d : sets)
+        d = gen_set(s, str, style);
+    std::string desc;
+    for (auto &d : sets)
+        desc += " {" + hx(d, 20) + "}";
+    size_t cur = 0;
+    std::string order;
+    auto next = [&]() -> size_t {
+        if (s.chance(1, 4))
+            cur = (size_t)s.below(3);
+        order += (char)('0' + cur);
+        return cur;
+    };
+    // the per-call choice of delimiter set is drawn while the sequence runs
+    c.log("%s off=%zu s=%s sets=%s", fn, off, hx(str, 200).c_str(), desc.c_str());
+    TokStat st = chk_strtok(reent, str, off, sets, next);
+    c.log(" order=%s", order.c_str());
+    c.nontrivial = st.tokens >= 2 || (st.tokens >= 1 && st.set_changes >= 1);
+    c.label(st.tokens == 0 ? lab[0] : st.tokens == 1 ? lab[1] : lab[2]);
+    if (st.set_changes)
+        c.label(lab[3]);
+    if (st.tokens >= 1)
+        c.label(lab[4]);
+}
+void f_strtok(Src &s, Case &c)
+{
+    static const char *const lab[5] = {"strtok:no_token", "strtok:one_token", "strtok:several_tokens",
+                                       "strtok:delimiters_changed", "strtok:null_is_sticky_checked"};
+    f_tok_common(s, c, false, "strtok", lab);
+}
+void f_strtok_r(Src &s, Case &c)
+{
+    static const char *const lab[5] = {"strtok_r:no_token", "strtok_r:one_token", "strtok_r:several_tokens",
+                                       "strtok_r:delimiters_changed", "strtok_r:null_is_sticky_checked"};
+    f_tok_common(s, c, true, "strtok_r", lab);
+}
+
+void f_strdup(Src &s, Case &c)
+{
+    c.label("strdup");
+    size_t L = pick_len(s), off = pick_off(s);
+    Bytes str = gen(s, L, (int)s.pick({SPECIAL, FULL, LETTERS}), true);
+    c.log("strdup off=%zu s=%s", off, hx(str, 200).c_str());
+    chk_strdup(str, off);
+    c.nontrivial = L >= 1;
+    if (!L)
+        c.label("strdup:empty");
+}
+
+void f_strndup(Src &s, Case &c)
+{
+    c.label("strndup");
+    size_t L = pick_len(s), off = pick_off(s);
+    Bytes str = gen(s, L, (int)s.pick({SPECIAL, FULL, LETTERS}), true);
+    size_t n = s.chance(1, 12) ? SIZE_MAX : pick_n(s, L);
+    NArr a = narr(s, str, n);
+    c.log("strndup n=%zu off=%zu %s s=%s", n, off, a.unterminated ? "unterminated" : "terminated",
+          hx(a.data, 200).c_str());
+    if (a.unterminated)
+    {
+        c.label("strndup:unterminated");
+        if (known_active("C08-strndup-unterminated"))
+        {
+            c.known_hit("C08-strndup-unterminated");
+            return;
+        }
+    }
+    chk_strndup(a.data, n, off);
+    c.nontrivial = n <= L && L >= 1;
+    c.label(n < L ? "strndup:truncated" : n == L ? "strndup:n_eq_len" : "strndup:whole");
+    if (n == 0)
+        c.label("strndup:n0");
+}
+
+void f_case_common(Src &s, Case &c, bool upper, const char *fn, const char *l_changed, const char *l_high)
+{
+    c.label(fn);
+    size_t L = pick_len(s), doff = pick_off(s), slack = (size_t)s.below(4);
+    Bytes str = gen(s, L, (int)s.pick({LETTERS, SPECIAL, FULL}), true);
+    c.log("%s dst_off=%zu slack=%zu s=%s", fn, doff, slack, hx(str, 200).c_str());
+    size_t changed = chk_case(upper, str, doff, slack);
+    c.nontrivial = changed >= 1;
+    if (changed)
+        c.label(l_changed);
+    for (auto x : str)
+        if (x >= 0x80)
+        {
+            c.label(l_high);
+            break;
+        }
+}
+void f_strlwr(Src &s, Case &c) { f_case_common(s, c, false, "strlwr", "strlwr:changed", "strlwr:highbit_bytes"); }
+void f_strupr(Src &s, Case &c) { f_case_common(s, c, true, "strupr", "strupr:changed", "strupr:highbit_bytes"); }
+
+// ---------------------------------------------------------------- multiplexer
+typedef void (*Fn)(Src &, Case &);
+const Fn ALL[] = {f_memcpy,  f_memmove,    f_memset,  f_memcmp,      f_memchr,  f_memrchr,    f_strlen,  f_strnlen,
+                  f_strcpy,  f_strncpy,    f_strlcpy, f_strcat,      f_strncat, f_strcmp,     f_strncmp, f_strcasecmp,
+                  f_strncasecmp, f_strchr, f_strrchr, f_strchrnul,   f_strstr,  f_strcasestr, f_strspn,  f_strcspn,
+                  f_strpbrk, f_strtok,     f_strtok_r, f_strdup,     f_strndup, f_strlwr,     f_strupr};
+const size_t NALL = sizeof ALL / sizeof ALL[0];
+void f_all(Src &s, Case &c) { ALL[s.below(NALL)](s, c); }
+
+// ---------------------------------------------------------------- enumeration
+// All pairs (A, B) of N-byte arrays over {0,'a','A',0xFF} (N = 5 quick, 6
+// thorough), each followed by a terminator. As strings they are every string of
+// length <= N over {'a','A',0xFF}; as arrays they also carry every combination
+// of bytes after an early terminator (n-functions must not look at them).
+const uint8_t EALPHA[4] = {0, 'a', 'A', 0xFF};
+int enum_n(int t) { return t ? 6 : 5; }
+unsigned __int128 enum_size(int t)
+{
+    uint64_t cnt = 1ull << (2 * enum_n(t));
+    return (unsigned __int128)cnt * cnt;
+}
+Bytes enum_arr(uint64_t idx, int N)
+{
+    Bytes r((size_t)N + 1, 0);
+    for (int i = 0; i < N; i++)
+    {
+        r[(size_t)i] = EALPHA[idx & 3];
+        idx >>= 2;
+    }
+    return r;
+}
+void f_enum(Src &s, Case &c)
+{
+    int N = enum_n(tier());
+    uint64_t cnt = 1ull << (2 * N);
+    uint64_t k = s.below(cnt * cnt);
+    uint64_t ai = k % cnt, bi = k / cnt;
+    Bytes A = enum_arr(ai, N), B = enum_arr(bi, N); // N+1 bytes, last is NUL
+    Bytes a(A.begin(), A.begin() + (long)slen(A)), b(B.begin(), B.begin() + (long)slen(B));
+    size_t La = a.size(), Lb = b.size();
+    c.log("enum A=%s B=%s", hx(A).c_str(), hx(B).c_str());
+    c.nontrivial = true;
+    size_t o1 = (size_t)(ai & 7), o2 = (size_t)(bi & 7);
+    const bool k_strlcpy = known_active("C08-strlcpy-return");
+
+    // --- two-string functions on the strings (blocks end at the terminator)
+    chk_cmp(false, a, b, o1, o2);
+    chk_cmp(true, a, b, o1, o2);
+    chk_str(false, a, b, o1, o2);
+    chk_str(true, a, b, o1, o2);
+    for (int w = 0; w < 3; w++)
+        chk_span(w, a, b, o1, o2);
+    chk_strcat(a, b, o2, o1, 1);
+    // --- n-functions on the full arrays (bytes after an early terminator present)
+    for (size_t n = 0; n <= (size_t)N + 2; n++)
+    {
+        chk_ncmp(false, A, B, n, o1, o2);
+        chk_ncmp(true, A, B, n, o1, o2);
+        chk_strncat(a, B, n, o2, o1, 1);
+        if (n <= (size_t)N + 1)
+            chk_memcmp(A, B, n, o1, o2);
+        // unterminated operands: exactly n bytes, when the strings are that long
+        if (La >= n && Lb >= n)
+        {
+            Bytes ua(a.begin(), a.begin() + (long)n), ub(b.begin(), b.begin() + (long)n);
+            chk_ncmp(false, ua, ub, n, o1, o2);
+            chk_ncmp(true, ua, ub, n, o1, o2);
+        }
+        if (Lb >= n)
+            chk_strncat(a, Bytes(b.begin(), b.begin() + (long)n), n, o2, o1, 0);
+    }
+    // --- strtok(_r): string a, delimiter sets from b
+    {
+        std::vector<Bytes> sets;
+        sets.push_back(b);
+        sets.push_back(Lb ? Bytes(b.begin() + 1, b.end()) : Bytes());
+        size_t i = 0;
+        auto same = [&]() -> size_t { return 0; };
+        auto alt = [&]() -> size_t { return i++ & 1; };
+        TokStat st = chk_strtok(true, a, o1, sets, same);
+        chk_strtok(false, a, o1, sets, same);
+        if (st.tokens)
+            c.label("enum:tokens");
+        if (Lb >= 2)
+        {
+            chk_strtok(true, a, o1, sets, alt);
+            i = 0;
+            chk_strtok(false, a, o1, sets, alt);
+        }
+    }
+    c.label("enum:pair");
+    if (bi >= 4)
+        return;
+    // --- one-string functions: string a / array A with character EALPHA[bi]
+    c.label("enum:unary");
+    int base = EALPHA[bi];
+    const int chs[4] = {base, (int)(signed char)base, base + 256, base - 512};
+    chk_strlen(a, o1);
+    chk_strcpy(a, o1, o2, 1);
+    chk_strdup(a, o1);
+    chk_case(false, a, o1, 1);
+    chk_case(true, a, o1, 1);
+    for (int ch : chs)
+    {
+        for (int w = 0; w < 3; w++)
+        {
+            if (w == 0 && ch != 0 && (char)ch == 0 && known_active("C08-strchr-int-nul"))
+            {
+                c.known_hit("C08-strchr-int-nul");
+                continue;
+            }
+            chk_chr(w, a, ch, o1, false);
+            if (w == 1)
+                chk_chr(w, a, ch, 0, true);
+        }
+        for (size_t n = 0; n <= (size_t)N + 1; n++)
+        {
+            Bytes pre(A.begin(), A.begin() + (long)n);
+            chk_memchr(pre, ch, n, o1);
+            if (n == 0 && known_active("C08-memrchr-n0"))
+            {
+                c.known_hit("C08-memrchr-n0");
+                continue;
+            }
+            chk_memrchr(pre, ch, o1, false);
+            chk_memrchr(pre, ch, 0, true);
+        }
+        chk_memset(La, ch, o1, 1);
+    }
+    chk_memcpy(A, o1, o2, 1);
+    for (size_t n = 0; n <= (size_t)N + 3; n++)
+    {
+        chk_strnlen(A, n, o1);
+        chk_strncpy(A, n, o1, o2, 1);
+        chk_strndup(A, n, o1);
+        if (chk_strlcpy(a, n, o1, o2, 1) && k_strlcpy)
+            c.known_hit("C08-strlcpy-return");
+        if (La >= n)
+        {
+            Bytes ua(a.begin(), a.begin() + (long)n);
+            chk_strnlen(ua, n, o1);
+            chk_strncpy(ua, n, o1, o2, 0);
+            if (known_active("C08-strndup-unterminated"))
+                c.known_hit("C08-strndup-unterminated");
+            else
+                chk_strndup(ua, n, o1);
+        }
+    }
+    for (long d = -(long)(N + 1); d <= (long)(N + 1); d++)
+        chk_memmove(A, d, o1, (d & 1) ? CAN : 0);
+}
+
+} // namespace
+
+#define C08_T(fn, rule) VP_TARGET(#fn, f_##fn, rule)
+C08_T(memcpy, "n 0..96 (1k thorough), src/dst at offsets 0..15 of 16-aligned blocks; non-trivial = word-copy "
+              "path taken (n >= 4*sizeof(long), both pointers long-aligned)");
+C08_T(memmove, "every overlap distance -n..+n, adjacent, disjoint, same; span optionally flush against both "
+               "block ends; non-trivial = ranges overlap or word path");
+C08_T(memset, "n 0..96, c over int incl. negative and > 255; non-trivial = n >= 1");
+C08_T(memcmp, "equal / one byte changed (bit 7, case bit, +1, any) / unrelated; non-trivial = n > 0 and "
+              "(equal or first difference involves a byte >= 0x80)");
+C08_T(memchr, "c from the buffer / absent / 0, as uchar, negative char or with high bits; n may exceed the "
+              "object after a match (C11); non-trivial = first match beyond index 0");
+C08_T(memrchr, "buffer flush against start or end of its block; non-trivial = a match exists and the last "
+               "byte is not it");
+C08_T(strlen, "string flush against block end at offsets 0..15; non-trivial = length >= 1");
+C08_T(strnlen, "maxlen below/equal/above length, SIZE_MAX, unterminated arrays of exactly maxlen bytes; "
+               "non-trivial = maxlen cuts (1 <= maxlen <= length)");
+C08_T(strcpy, "exactly-sized destination with canaries; non-trivial = length >= 1");
+C08_T(strncpy, "n below/equal/above length, unterminated source of exactly n bytes; non-trivial = truncation "
+               "(n <= length) or NUL padding (n > length+1)");
+C08_T(strlcpy, "size 0 / <= length / length+1 / larger; non-trivial = truncation occurred");
+C08_T(strcat, "destination holds a string, region exactly sized; non-trivial = both strings non-empty");
+C08_T(strncat, "n below/equal/above source length, SIZE_MAX, unterminated source; non-trivial = truncation "
+               "or n >= 4 (unrolled loop)");
+C08_T(strcmp, "second string derived from the first (equal/changed byte/prefix/longer/unrelated); "
+              "non-trivial = common prefix >= 1 and (equal, prefix relation or difference at a byte >= 0x80)");
+C08_T(strncmp, "as strcmp with n around the first difference, 0, SIZE_MAX, unterminated arrays of n bytes; "
+               "non-trivial = n cuts the comparison or difference at a byte >= 0x80 inside n");
+C08_T(strcasecmp, "letters of both cases and neighbours of the letter ranges, random case flips; "
+                  "non-trivial = common prefix >= 1 and (case-folded pair passed, equal, prefix or high-bit difference)");
+C08_T(strncasecmp, "as strcasecmp with n; non-trivial = n cuts, high-bit difference inside n, or a case-folded pair passed");
+C08_T(strchr, "c from the string / absent / terminator, as uchar, negative char, or with high bits; "
+              "non-trivial = first match beyond index 0");
+C08_T(strrchr, "string flush against block start or end; non-trivial = at least two matches");
+C08_T(strchrnul, "as strchr; non-trivial = first match beyond index 0");
+C08_T(strstr, "needle: substring at start/middle/end, substring with last char changed, tail continued past "
+              "the end, empty, longer than haystack; non-trivial = match beyond index 0 or an earlier partial match");
+C08_T(strcasestr, "as strstr with case flips; non-trivial = match beyond index 0 or an earlier partial match");
+C08_T(strspn, "accept set: chars of the string / empty / arbitrary / all; non-trivial = 1 <= result < length");
+C08_T(strcspn, "reject set likewise; non-trivial = 1 <= result < length");
+C08_T(strpbrk, "set likewise; non-trivial = match beyond index 0");
+C08_T(strtok, "call sequence to exhaustion (+1 repeat after NULL), delimiter set may change between calls; "
+              "non-trivial = >= 2 tokens or a set change with >= 1 token");
+C08_T(strtok_r, "as strtok with a poisoned initial save pointer; non-trivial = >= 2 tokens or a set change with >= 1 token");
+C08_T(strdup, "copy must be a fresh malloc block equal to the string; non-trivial = length >= 1");
+C08_T(strndup, "n below/equal/above length, SIZE_MAX, unterminated arrays of exactly n bytes; non-trivial = n <= length");
+C08_T(strlwr, "letters, bytes next to the letter ranges, bytes >= 0x80; non-trivial = at least one character changes");
+C08_T(strupr, "as strlwr; non-trivial = at least one character changes");
+VP_TARGET("all", f_all, "first choice selects one of the 31 functions, then that function's generator and rule");
+VP_TARGET("str_enum", f_enum,
+          "exhaustive: every pair of 5-byte (thorough: 6-byte) arrays over {00,'a','A',FF} through every "
+          "two-string function, every n, strtok(_r) with the second as delimiters; every single array "
+          "through the one-string functions with every alphabet character and every n",
+          enum_size);
